@@ -90,6 +90,7 @@ Lemma get_pop_foot c r :
                   dget ref (c_stat (fst (get_pop c r))) = dget ref (c_stat c)).
 Proof.
   unfold get_pop. destruct (dget (rs_seq r) (c_store c)) as [e|]; [|cbn [fst]; auto].
+  destruct (negb (answers r (e_msg e))); [cbn [fst]; auto|].
   cbn [fst]. destruct (is_submit (e_msg e)).
   - cbn [with_store c_seg c_stat c_store].
     destruct (dget (rs_seq r) (c_seg c)) as [[ref sseq]|] eqn:Eg.
